@@ -226,7 +226,7 @@ def check_move_hash(ctx, prog, I, mvs):
     for gold in (True, False):
         for step in range(4):
             for (s, d) in mvs:
-                gsv = inputs.play_state(prog, gold, step)
+                gsv = inputs.play_state(prog, gold, step, trapped='sym')
                 r = take(I, prog, gsv, move_action(prog, s, d))
                 h = fld(prog, GS, r, 'hash').fields[0]
                 mode = '%s step %d %s%s' % ('gold' if gold else 'silver', step, G.name(s), d)
@@ -280,7 +280,7 @@ def check_pass_hash(ctx, prog, I):
     fn = prog.one('GameState::take_action')
     for gold in (True, False):
         for step in (1, 2, 3):
-            r = take(I, prog, inputs.play_state(prog, gold, step), pass_action(prog))
+            r = take(I, prog, inputs.play_state(prog, gold, step, trapped='sym'), pass_action(prog))
             h = fld(prog, 'engine::GameState', r, 'hash').fields[0]
             want = HF([(('OPAQUE', 'h'), C1), (('P',), C1), (('STEP', step), C1), (('STEP', 0), C1)])
             ok = h == want
